@@ -126,7 +126,7 @@ func NewSendType(left, right SessionType, mode Modality) *SendType {
 func (q *SendType) String() string {
 	var buffer bytes.Buffer
 	// buffer.WriteString("(")
-	buffer.WriteString(q.Left.String())
+	buffer.WriteString(leftOperandString(q.Left))
 	buffer.WriteString(" * ")
 	buffer.WriteString(q.Right.String())
 	// buffer.WriteString(")")
@@ -158,6 +158,17 @@ func (q *SendType) Modality() Modality {
 	return q.Mode
 }
 
+// The binary type operators and the shifts associate to the right, so a left operand that
+// is itself a send, receive or shift type needs brackets, e.g. (1 * 1) * 1
+func leftOperandString(left SessionType) string {
+	switch left.(type) {
+	case *SendType, *ReceiveType, *UpType, *DownType:
+		return "(" + left.String() + ")"
+	}
+
+	return left.String()
+}
+
 // Receive: A -* B
 type ReceiveType struct {
 	Left  SessionType
@@ -176,7 +187,7 @@ func NewReceiveType(left, right SessionType, mode Modality) *ReceiveType {
 func (q *ReceiveType) String() string {
 	var buffer bytes.Buffer
 	// buffer.WriteString("(")
-	buffer.WriteString(q.Left.String())
+	buffer.WriteString(leftOperandString(q.Left))
 	buffer.WriteString(" -* ")
 	buffer.WriteString(q.Right.String())
 	// buffer.WriteString(")")
